@@ -112,12 +112,42 @@ class Ctx:
         return p.returncode, out
 
     # ------------------------------------------------------------------ go harness
-    def go_build(self, cmd, race=False):
-        """Build harness/cmd/<cmd> against /repo's working tree with -tags verif."""
+    def _snapshot(self):
+        """Copy /repo's current working tree (without .git) into the run's scratch directory and
+        write a module file whose replace directive points at the copy.  The harness is built from
+        that snapshot, so the tree the check judges is fixed at this instant even if /repo is edited
+        while the check runs; HEAD and the files differing from HEAD are recorded in the evidence."""
+        if getattr(self, "snap", None):
+            return self.snap
+        snap = self.path("repo")
+        self.run(["rsync", "-a", "--delete", "--exclude", ".git", REPO + "/", snap + "/"],
+                 timeout=300, what="snapshot of " + REPO)
         hdir = os.path.join(ROOT, "harness")
-        shutil.copyfile(os.path.join(REPO, "go.sum"), os.path.join(hdir, "go.sum"))
+        mod = open(os.path.join(hdir, "go.mod")).read()
+        mod2 = re.sub(r"(replace\s+github.com/pinealctx/neptune\s*=>\s*)\S+", r"\g<1>" + snap, mod)
+        if mod2 == mod and REPO != snap:
+            raise MachineryError("harness/go.mod has no replace directive for neptune")
+        with open(self.path("harness.mod"), "w") as f:
+            f.write(mod2)
+        shutil.copyfile(os.path.join(snap, "go.sum"), self.path("harness.sum"))
+        try:
+            head = subprocess.check_output(["git", "-C", REPO, "rev-parse", "--short", "HEAD"]).decode().strip()
+            dirty = [l for l in subprocess.check_output(["git", "-C", REPO, "status", "--porcelain"])
+                     .decode().split("\n") if l.strip()]
+        except Exception:
+            head, dirty = "?", []
+        self.extra["built_from"] = {"head": head, "files_differing_from_head": dirty[:40]}
+        if dirty:
+            log("[build] note: /repo differs from HEAD %s in: %s" % (head, ", ".join(d.strip() for d in dirty[:12])))
+        self.snap = snap
+        return snap
+
+    def go_build(self, cmd, race=False):
+        """Build harness/cmd/<cmd> against a snapshot of /repo's working tree with -tags verif."""
+        hdir = os.path.join(ROOT, "harness")
+        self._snapshot()
         out = self.path(cmd + ("-race" if race else ""))
-        args = ["go", "build", "-tags", "verif"]
+        args = ["go", "build", "-tags", "verif", "-modfile", self.path("harness.mod")]
         if race:
             args.append("-race")
         args += ["-o", out, "./cmd/" + cmd]
